@@ -51,6 +51,12 @@ def build_dataset():
     lz["v"] = BaseType("v")
     lz.data = IterData([(np.int32(i), np.float64(i) / 2) for i in range(5)], lz)
     ds["lz"] = lz
+    # a lazy sequence that is served as a view (a record range taken before it was handed to the server)
+    ls = SequenceType("ls")
+    ls["k"] = BaseType("k")
+    ls["v"] = BaseType("v")
+    ls.data = IterData([(np.int32(i), np.float64(i) / 4) for i in range(11)], ls)[1:]
+    ds["ls"] = ls
     # a lazy sequence whose column mixes Python types across rows: the declared type is taken from the first selected record,
     # per request - and must not be remembered from an earlier request
     mx = SequenceType("mx")
@@ -95,6 +101,7 @@ REQUESTS = [
     "/d.html", "/d.html?x", "/d.dds", "/d.das", "/d.dods", "/d.ascii", "/d.ver",
     "/d.dods?x[0:1][1:2][0:2:3]", "/d.dds?x[0:0]", "/d.ascii?f[1][0:1]", "/d.dods?g[0:1][1:3]", "/d.dods?g.a[1:2],g.y", "/d.dds?st.m",
     "/d.dods?st.m[1:2],s", "/d.dods?q", "/d.dods?q.c,q.a", "/d.ascii?q&q.a>1", "/d.dods?q.a&q.a>1&q.b<5", "/d.dods?q[1:2]",
+    "/d.dods?ls", "/d.dods?ls[1:2]", "/d.ascii?ls[0:2:6]", "/d.dods?ls.k&ls.k>2",
     "/d.dods?lz", "/d.ascii?lz&lz.k>1", "/d.dods?lz.v&lz.k<3", "/d.dods?lz[1:3]", "/d.das?x[0:0]",
     "/d.dods?mean(x,0)", "/d.dods?mean(mean(x,0),0)", "/d.ascii?mean(g,1)", "/d.dods?x,mean(f,1)", "/d.dods?loc&bounds(0,25,0,5,0,20,0,9)",
     "/d.dods?m", "/d.dds?m", "/d.ascii?n", "/d.dods?k", "/d.dods?q.a", "/d.dods?loc.t", "/d.dods?lz.k", "/d.dods?q.b", "/d.dods?lz.v",
@@ -274,6 +281,9 @@ def main():
         if h == 0:
             # scripted: the two zeros asked again after a request that formats hundreds of other numbers, in the other order
             hist = ["/d.ascii?z0", "/d.ascii?z1", "/d.das", "/d.ascii?big", "/d.ascii?z1", "/d.ascii?z0", "/d.das", "/d.ascii?zi"]
+        if h == 1:
+            # scripted: record ranges of the sequence that is served as a view, then the whole of it
+            hist = ["/d.dods?ls", "/d.dods?ls[1:2]", "/d.ascii?ls[0:2:6]", "/d.dods?ls", "/d.dods?ls[1:2]", "/d.dods?ls.k&ls.k>2", "/d.dds?ls"]
         stats["histories"] += 1
         for pos, u in enumerate(hist):
             got = fetch(app, u)
